@@ -52,6 +52,7 @@ func (tw *tokenWorld) race(ch *kernel.Chooser) string {
 		return "race: no token pair"
 	}
 	g := cands[ch.Int(len(cands))]
+	tw.goHome(g)
 	owner := w.Store.Clients[g.client]
 	id, _, _, decodes := w.DecodeAccess(g.access)
 	if !decodes {
@@ -278,7 +279,7 @@ func (tw *tokenWorld) race(ch *kernel.Chooser) string {
 	for _, u := range ops {
 		if u.kind == "refresh" && u.ok && u.tr != nil && u.tr.RefreshToken != "" && w.Store.RefreshLive(u.tr.RefreshToken) {
 			tw.pool = append(tw.pool, &grantedToken{access: u.tr.AccessToken, refresh: u.tr.RefreshToken, idToken: u.tr.IDToken, client: g.client, subject: g.subject,
-				scopes: u.tr.ScopeList(), original: g.original, authTime: g.authTime, chain: g.chain + 1, flow: "refresh"})
+				scopes: u.tr.ScopeList(), original: g.original, authTime: g.authTime, chain: g.chain + 1, flow: "refresh", issuer: g.issuer})
 		}
 	}
 	if !aNow && !rNow {
